@@ -276,7 +276,15 @@ def gen_history(rng: Rng, world: dict) -> list[dict]:
     for _ in range(n):
         kind = rng.weighted([("cfg", 5), ("lint", 3), ("lint_string", 2), ("evict", 1), ("restart", 1), ("cli", 1)])
         if kind == "cfg":
-            ops.append({"op": "cfg", "file": rng.choice(sqls)})
+            op = {"op": "cfg", "file": rng.choice(sqls)}
+            if rng.chance(0.12):
+                # read fault: ONE config file on this file's chain cannot be read (EACCES / EIO). The error may
+                # surface; the file's settings must not be silently left out of the merge.
+                fdir = world["sqls"][op["file"]]["dir"]
+                chain = [p_ for p_ in world["sources"] if p_.startswith("proj") and (fdir == os.path.dirname(p_) or fdir.startswith(os.path.dirname(p_) + "/"))]
+                if chain:
+                    op["unreadable"] = [rng.choice(sorted(chain)), rng.choice(["EACCES", "EIO"])]
+            ops.append(op)
         elif kind == "lint":
             k = rng.randint(1, min(4, len(sqls)))
             files = rng.sample(sqls, k)
@@ -381,6 +389,33 @@ def run_one(ctx: Any, seed: int, tier: str, replay: Optional[dict] = None) -> di
                 node.call("env", kind="evict")
                 faults["evict"] += 1
                 log.append([opi, "evict"])
+                continue
+            if kind == "cfg" and op.get("unreadable"):
+                # in a fresh node (cold config caches, so the file really is opened), with the read fault armed
+                f = op["file"]
+                upath, uerr = op["unreadable"]
+                un = new_node("unread%d" % opi)
+                try:
+                    r = un.call("effective_config", fname=os.path.relpath(f, cwd), handle="U", overrides=ov or None, extra_config=extra_rel,
+                                plan=[{"cls": "open_r", "path": upath, "nth": 0, "kind": "err", "errno": uerr}])
+                    ufired = dict(un.fired)
+                finally:
+                    un.close()
+                evaluations += 1
+                if ufired.get("err"):
+                    faults["config_file_unreadable"] += 1
+                    if "exception" in r:
+                        probes["unreadable_config_error_surfaced"] += 1
+                    else:
+                        saved_ctx = last_ctx
+                        last_ctx = None
+                        nv = len(violations)
+                        judge("effective_config with %s unreadable (%s)" % (upath, uerr), f, world["sqls"][f]["dir"], world["sqls"][f]["inline"], r["values"], opi)
+                        last_ctx = saved_ctx
+                        for v_ in violations[nv:]:
+                            v_["oracle"] = "unreadable-config-file"
+                            v_["signature"] = "C27:unreadable-config-silently-skipped"
+                log.append([opi, "cfg-unreadable", f, upath, "EXC" if "exception" in r else sorted(r["values"].items())])
                 continue
             if kind == "cfg":
                 f = op["file"]
